@@ -61,6 +61,7 @@ class GroupCoordinator:
             for m in g.members.values():
                 for key in ("join_cb", "sync_cb"):
                     m[key] = None
+            g.pending_ids = set()       # member ids handed out with MEMBER_ID_REQUIRED live in memory only
             if not keep_state:
                 for m in g.members.values():
                     if m.get("timer"):
